@@ -32,6 +32,7 @@ var DepSyntax = []string{
 	"github.com/ipld/go-ipld-prime/traversal",
 	"github.com/ipld/go-ipld-prime/traversal/selector",
 	"github.com/ipld/go-ipld-prime/traversal/selector/builder",
+	"github.com/ipfs/go-cid", // C11.R3: is cid.Undef the zero value?
 }
 
 // Program is the loaded, type-checked, SSA-built program.
